@@ -8,7 +8,6 @@ use crate::rust_types::{
 use itertools::Itertools;
 use joinery::JoinableIterator;
 use lazy_format::lazy_format;
-use std::ops::Deref;
 use std::{collections::HashMap, io::Write};
 
 /// All information needed for Scala type-code
@@ -481,31 +480,28 @@ impl Scala {
                 })
             })
             .collect_vec();
+        fn uses_unsigned(ty: &RustType) -> bool {
+            match ty {
+                RustType::Generic { id: _, parameters } => parameters.iter().any(uses_unsigned),
+                RustType::Simple { .. } => false,
+                RustType::Special(special) => match special {
+                    SpecialRustType::Option(ty)
+                    | SpecialRustType::Vec(ty)
+                    | SpecialRustType::Array(ty, _)
+                    | SpecialRustType::Slice(ty) => uses_unsigned(ty),
+                    SpecialRustType::HashMap(kty, vty) => uses_unsigned(kty) || uses_unsigned(vty),
+                    SpecialRustType::U8
+                    | SpecialRustType::U16
+                    | SpecialRustType::U32
+                    | SpecialRustType::U53
+                    | SpecialRustType::U64
+                    | SpecialRustType::USize => true,
+                    _ => false,
+                },
+            }
+        }
         itertools::concat(vec![types_in_aliases, types_in_structs, types_in_enum])
             .iter()
-            .flat_map(|ty| match ty {
-                RustType::Generic { id: _, parameters } => parameters.clone(),
-                RustType::Special(SpecialRustType::Option(ty) | SpecialRustType::Vec(ty)) => {
-                    vec![ty.deref().clone()]
-                }
-                RustType::Special(SpecialRustType::HashMap(kty, vty)) => {
-                    vec![kty.deref().clone(), vty.deref().clone()]
-                }
-                RustType::Special(_) => vec![ty.clone()],
-                RustType::Simple { .. } => vec![],
-            })
-            .any(|ty| {
-                matches!(
-                    ty,
-                    RustType::Special(
-                        SpecialRustType::U8
-                            | SpecialRustType::U16
-                            | SpecialRustType::U32
-                            | SpecialRustType::U53
-                            | SpecialRustType::U64
-                            | SpecialRustType::USize,
-                    )
-                )
-            })
+            .any(uses_unsigned)
     }
 }
